@@ -257,6 +257,8 @@ def volume_spec():
         st.fixed_dictionaries(
             {"k": st.just("zeros"), "seed": small_seed, "p0": st.floats(0.05, 0.9)}
         ),
+        # a vertex of the simplex: one grain holds all the volume
+        st.fixed_dictionaries({"k": st.just("vertex"), "i": st.integers(0, 10**6)}),
     )
 
 
@@ -277,6 +279,10 @@ def volumes(spec, n):
         w = np.full(n, (1.0 - spec["share"]) / (n - 1))
         w[spec["i"] % n] = spec["share"]
         return w / w.sum()
+    if k == "vertex":
+        w = np.zeros(n)
+        w[spec["i"] % n] = 1.0
+        return w
     if k == "zeros":
         rng = np.random.default_rng(spec["seed"])
         w = rng.uniform(0.1, 1.0, size=n)
